@@ -29,9 +29,9 @@ func fileCases(r *mon.Run) []fileCase {
 		out = append(out, fileCase{w, ch, n, kind, note})
 	}
 	k := 4
-	small := []int{2, 3}
+	small := []int{2, 3, 4}
 	if !r.Quick() {
-		small = []int{2, 3, 4, 5}
+		small = []int{2, 3, 4, 5, 6}
 	}
 	for _, w := range small {
 		max := w*w*w + w + 2
@@ -111,7 +111,7 @@ func fileCases(r *mon.Run) []fileCase {
 	}
 	// seeded random fill-in
 	rnd := newRand(r.SeedFor("filecases"))
-	for i := 0; i < r.Pick(30, 400); i++ {
+	for i := 0; i < r.Pick(150, 4000); i++ {
 		w := []int{2, 3, 4, 5, 7}[rnd.Intn(5)]
 		ks := []int{1, 2, 3, 4, 5, 8, 13}[rnd.Intn(7)]
 		n := rnd.Intn(w*w*w + 2*w)
